@@ -59,6 +59,7 @@ func c13RunConc(c *c13Case) (res Result) {
 		d := *s
 		d.Mode, d.Default, d.Table, d.ErrValid = cfg.Mode, cfg.Default, cfg.Table, cfg.ErrValid
 		d.Lookup, d.Scheme, d.EH, d.Cont, d.Realm = cfg.Lookup, cfg.Scheme, cfg.EH, cfg.Cont, cfg.Realm
+		d.Ctor, d.Skipper = 0, cfg.Skipper // one instance, built with ...WithConfig; Skip stays per request
 		subs[i] = &d
 	}
 	st := &c13ConcState{
@@ -96,7 +97,8 @@ func c13RunConc(c *c13Case) (res Result) {
 		}()
 		if basic {
 			mw = middleware.BasicAuthWithConfig(middleware.BasicAuthConfig{
-				Realm: cfg.Realm,
+				Skipper: c13Skipper(cfg),
+				Realm:   cfg.Realm,
 				Validator: func(u, p string, ctx echo.Context) (bool, error) {
 					id := c13ReqID(ctx, n)
 					if id >= 0 {
@@ -111,6 +113,7 @@ func c13RunConc(c *c13Case) (res Result) {
 			return false
 		}
 		kc := middleware.KeyAuthConfig{
+			Skipper:   c13Skipper(cfg),
 			KeyLookup: cfg.Lookup, AuthScheme: cfg.Scheme, ContinueOnIgnoredError: cfg.Cont,
 			Validator: func(key string, ctx echo.Context) (bool, error) {
 				id := c13ReqID(ctx, n)
@@ -153,6 +156,7 @@ func c13RunConc(c *c13Case) (res Result) {
 	}
 	e.Any("/", h)
 	e.Any("/p/:key/:other", h)
+	e.Any(c13ManyRoute(), h)
 
 	recs := make([]*httptest.ResponseRecorder, n)
 	panics := make([]string, n)
@@ -164,10 +168,7 @@ func c13RunConc(c *c13Case) (res Result) {
 		}
 		var req *http.Request
 		if basic {
-			req = httptest.NewRequest(http.MethodGet, "/", nil)
-			for _, a := range subs[i].Auth {
-				req.Header["Authorization"] = append(req.Header["Authorization"], string(a))
-			}
+			req = c13BasicRequest(subs[i])
 		} else {
 			req = c13Request(subs[i])
 		}
@@ -251,6 +252,7 @@ func c13GenConc(r *rand.Rand) *c13Case {
 			c.Sub = append(c.Sub, s)
 			c.BlockAt = append(c.BlockAt, 0)
 		}
+		c13ConcSkips(r, c)
 		return c
 	}
 	type srcSpec struct{ lookup, kind, name, pre string }
@@ -331,7 +333,20 @@ func c13GenConc(r *rand.Rand) *c13Case {
 	// the installed configuration travels with the first request
 	c.Sub[0].Lookup, c.Sub[0].Default, c.Sub[0].Table = cfg.Lookup, cfg.Default, cfg.Table
 	c.Sub[0].EH, c.Sub[0].Cont, c.Sub[0].ErrValid = cfg.EH, cfg.Cont, cfg.ErrValid
+	c13ConcSkips(r, c)
 	return c
+}
+
+// now and then the one instance has a custom Skipper and some of the requests are skipped: a skipped request
+// between two authenticated ones must neither inherit nor leave anything behind
+func c13ConcSkips(r *rand.Rand, c *c13Case) {
+	if r.Intn(4) != 0 {
+		return
+	}
+	c.Sub[0].Skipper = 1
+	for _, s := range c.Sub {
+		s.Skip = r.Intn(3) == 0
+	}
 }
 
 // ---------- shrinking ----------
@@ -397,6 +412,11 @@ func c13ShrinkConc(c *c13Case) []any {
 			d.Sub[0].Lookup = strings.Join(append(append([]string(nil), parts[:i]...), parts[i+1:]...), ",")
 			out = append(out, d)
 		}
+	}
+	if c.Sub[0].Skipper != 0 {
+		d := cp()
+		d.Sub[0].Skipper = 0
+		out = append(out, d)
 	}
 	if c.Sub[0].EH != 0 || c.Sub[0].Cont || c.Sub[0].ErrValid {
 		d := cp()
